@@ -2793,6 +2793,12 @@ Proof. intros Hwf. apply (traverse_sound_n (S (nsize n)) n); [lia|exact Hwf]. Qe
 Lemma tmatch_sound ts n e : In e (tmatch ts n) -> exists p, In e (set_rs (nd p n)).
 Proof. rewrite tmatch_cands. intros Hin. apply in_flat_map in Hin as (p & _ & Hin). now exists p. Qed.
 
+Lemma tmatch_top_sound topic n e : In e (tmatch_top topic n) -> exists p, In e (set_rs (nd p n)).
+Proof.
+  unfold tmatch_top. destruct (starts_dollar topic); [|apply tmatch_sound].
+  rewrite tmatch_lit_cands. intros Hin. apply in_flat_map in Hin as (p & _ & Hin). now exists p.
+Qed.
+
 Lemma node_entry_key k sp T p c sb :
   spec_ok sp -> TInv k (fun key => sp_get key sp) T -> In (c, sb) (set_rs (nd p T)) ->
   In (c, s_share sb, s_filter sb) (map fst sp).
@@ -2807,14 +2813,14 @@ Lemma deliver_ents_clients topic d sp l :
   forall c x, In (c, x) l -> exists sb, x = Some sb /\ In (c, s_share sb, s_filter sb) (map fst sp).
 Proof.
   intros HI. pose proof (inv_ok _ _ HI) as Hok.
-  assert (HT : forall k e, (In e (traverse (trie_of k d)) \/ In e (tmatch (split topic) (trie_of k d))) ->
+  assert (HT : forall k e, (In e (traverse (trie_of k d)) \/ In e (tmatch_top topic (trie_of k d))) ->
                In (fst e, s_share (snd e), s_filter (snd e)) (map fst sp)).
   { intros k [c sb] [Hin|Hin]; cbn [fst snd].
     - destruct (traverse_sound _ _ (proj1 (inv_trie _ _ HI k)) Hin) as [p Hp].
       eapply node_entry_key; eauto. apply (inv_trie _ _ HI k).
-    - destruct (tmatch_sound _ _ _ Hin) as [p Hp]. eapply node_entry_key; eauto. apply (inv_trie _ _ HI k). }
+    - destruct (tmatch_top_sound _ _ _ Hin) as [p Hp]. eapply node_entry_key; eauto. apply (inv_trie _ _ HI k). }
   assert (HS : forall k (L : list (cid * sub)),
-            (forall e, In e L -> In e (traverse (trie_of k d)) \/ In e (tmatch (split topic) (trie_of k d))) ->
+            (forall e, In e L -> In e (traverse (trie_of k d)) \/ In e (tmatch_top topic (trie_of k d))) ->
             forall c x, In (c, x) (some_ents L) -> exists sb, x = Some sb /\ In (c, s_share sb, s_filter sb) (map fst sp)).
   { intros k L HL c x Hin. unfold some_ents in Hin. apply in_map_iff in Hin as ([c' sb] & E & Hin).
     injection E as <- <-. exists sb. split; [reflexivity|]. apply (HT k (c', sb)). now apply HL. }
